@@ -1205,47 +1205,11 @@ func rulePanic(c *Ctx) {
 		c.atLeast("callers of resolver.Resolve", nCallers, 1)
 	}
 
-	// CLI: indexing the source by the reported position must be bounds-guarded
-	sfd := c.funcDecl("main", "showSourceLine")
-	if sfd != nil {
-		mp := c.pkg("main")
-		ast.Inspect(sfd.Body, func(n ast.Node) bool {
-			var idxExpr ast.Expr
-			var what string
-			switch x := n.(type) {
-			case *ast.IndexExpr:
-				idxExpr, what = x.Index, types.ExprString(x)
-			case *ast.SliceExpr:
-				if x.High != nil {
-					idxExpr, what = x.High, types.ExprString(x)
-				}
-			}
-			if idxExpr == nil || !strings.Contains(types.ExprString(idxExpr), "pos.") {
-				return true
-			}
-			// some enclosing/preceding if must compare the same pos field with a len()
-			fld := "pos.Line"
-			if strings.Contains(types.ExprString(idxExpr), "pos.Column") {
-				fld = "pos.Column"
-			}
-			guarded := false
-			ast.Inspect(sfd.Body, func(m ast.Node) bool {
-				is, ok := m.(*ast.IfStmt)
-				if ok && is.Pos() < n.Pos() {
-					cs := types.ExprString(is.Cond)
-					if strings.Contains(cs, fld) && strings.Contains(cs, "len(") {
-						guarded = true
-					}
-				}
-				return true
-			})
-			_ = mp
-			c.check(guarded, "cli-index:"+fld, n.Pos(), what+" is preceded by a bounds test of "+fld, what+" indexes the source by "+fld+" of the reported error without a bounds test: a position outside the source makes the CLI panic instead of printing the error")
-			return true
-		})
-	} else {
-		c.undecided("anchor:showSourceLine", token.NoPos, "goawk.go showSourceLine not found")
-	}
+	// CLI: indexing the source by the reported position must be bounds-guarded. The Line and Column of a
+	// lexer.Position are followed through arithmetic with constants and through the parameters of the functions of
+	// package main they are handed to; wherever such a value (or one derived from it) is an index or a slice bound,
+	// a comparison of a value derived from the same field with a length dominates the use.
+	cliIndexGuarded(c)
 }
 
 // dominatedByOneRune: the instruction is reached only through the true edge of `RuneCountInString(x) == 1`.
@@ -1366,4 +1330,153 @@ func tabledThroughCallers(c *Ctx, table map[string]string, short string, fn *ssa
 		reason = why
 	}
 	return reason, reason != ""
+}
+
+func cliIndexGuarded(c *Ctx) {
+	fns := c.srcFuncs("main")
+	if len(fns) == 0 {
+		c.undecided("anchor:showSourceLine", token.NoPos, "package main not loaded")
+		return
+	}
+	// taint: value -> "pos.Line" / "pos.Column"
+	taint := map[ssa.Value]string{}
+	isPosField := func(v ssa.Value) string {
+		switch x := v.(type) {
+		case *ssa.Field:
+			if isNamed(x.X.Type(), modPath+"/lexer", "Position") {
+				return "pos." + fieldNameOf(x.X.Type(), x.Field)
+			}
+		case *ssa.UnOp:
+			if x.Op == token.MUL {
+				if f, base := fieldOfAddr(x.X); f != nil && isNamed(deref(base.Type()), modPath+"/lexer", "Position") {
+					return "pos." + f.Name()
+				}
+			}
+		}
+		return ""
+	}
+	changed := true
+	for round := 0; changed && round < 6; round++ {
+		changed = false
+		for _, fn := range fns {
+			fn := fn
+			allInstrs(fn, func(in ssa.Instruction) {
+				v, ok := in.(ssa.Value)
+				if ok && taint[v] == "" {
+					if f := isPosField(v); f == "pos.Line" || f == "pos.Column" {
+						taint[v] = f
+						changed = true
+					}
+					switch x := v.(type) {
+					case *ssa.BinOp:
+						if (x.Op == token.ADD || x.Op == token.SUB) && (taint[x.X] != "" || taint[x.Y] != "") {
+							taint[v] = taint[x.X] + taint[x.Y]
+							changed = true
+						}
+					case *ssa.Convert:
+						if taint[x.X] != "" {
+							taint[v] = taint[x.X]
+							changed = true
+						}
+					case *ssa.Phi:
+						for _, e := range x.Edges {
+							if taint[e] != "" && taint[v] == "" {
+								taint[v] = taint[e]
+								changed = true
+							}
+						}
+					}
+				}
+				if call, ok := in.(ssa.CallInstruction); ok {
+					if g := call.Common().StaticCallee(); g != nil && g.Pkg == fn.Pkg && len(g.Blocks) > 0 {
+						for i, a := range call.Common().Args {
+							if taint[a] != "" && i < len(g.Params) && taint[g.Params[i]] == "" {
+								taint[g.Params[i]] = taint[a]
+								changed = true
+							}
+						}
+					}
+				}
+			})
+		}
+	}
+	n := 0
+	for _, fn := range fns {
+		fn := fn
+		k := map[string]int{}
+		allInstrs(fn, func(in ssa.Instruction) {
+			var uses []ssa.Value
+			what := ""
+			switch x := in.(type) {
+			case *ssa.IndexAddr:
+				uses, what = []ssa.Value{x.Index}, "an index"
+			case *ssa.Index:
+				uses, what = []ssa.Value{x.Index}, "an index"
+			case *ssa.Slice:
+				uses, what = []ssa.Value{x.Low, x.High}, "a slice bound"
+			}
+			for _, u := range uses {
+				if u == nil || taint[u] == "" {
+					continue
+				}
+				fld := taint[u]
+				n++
+				k[fld]++
+				key := "cli-index:" + fld
+				if fn.Name() != "showSourceLine" {
+					key += ":" + fn.Name()
+				}
+				if k[fld] > 1 {
+					key += "#" + itoa(int64(k[fld]))
+				}
+				guarded := false
+				for _, d := range fn.Blocks {
+					if len(d.Instrs) == 0 || !d.Dominates(in.Block()) {
+						continue
+					}
+					iff, ok := d.Instrs[len(d.Instrs)-1].(*ssa.If)
+					if !ok {
+						continue
+					}
+					var hasT, hasLen bool
+					seen := map[ssa.Value]bool{}
+					var walk func(v ssa.Value, depth int)
+					walk = func(v ssa.Value, depth int) {
+						if v == nil || seen[v] || depth > 6 {
+							return
+						}
+						seen[v] = true
+						if taint[v] == fld {
+							hasT = true
+						}
+						switch x := v.(type) {
+						case *ssa.BinOp:
+							walk(x.X, depth+1)
+							walk(x.Y, depth+1)
+						case *ssa.UnOp:
+							walk(x.X, depth+1)
+						case *ssa.Convert:
+							walk(x.X, depth+1)
+						case *ssa.Phi:
+							for _, e := range x.Edges {
+								walk(e, depth+1)
+							}
+						case *ssa.Call:
+							if b, ok := x.Call.Value.(*ssa.Builtin); ok && b.Name() == "len" {
+								hasLen = true
+							}
+						}
+					}
+					walk(iff.Cond, 0)
+					if hasT && hasLen {
+						guarded = true
+					}
+				}
+				c.check(guarded, key, in.Pos(), what+" derived from "+fld+" is preceded by a comparison of "+fld+" with a length", fnKey(fn)+" uses a value derived from "+fld+" of the reported error as "+what+" without a dominating comparison with a length: a position outside the source makes the CLI panic instead of printing the error")
+			}
+		})
+	}
+	if n == 0 {
+		c.undecided("anchor:showSourceLine", token.NoPos, "no index or slice bound derived from the position of a reported error was found in package main")
+	}
 }
